@@ -1,7 +1,7 @@
 (* C09 under interleavings: every state the small-step lifecycle machine (Model/LifecycleI.v) reaches under ANY schedule of fault
    labels and task resumptions - client handlers suspended at every delivery for as long as the schedule likes - heals once the
-   tasks inside the manager have been resumed to their end and the network is healthy, within a bound, EXCEPT the states of finding
-   K10 (a reset that returned with descriptors in place: IDLE, nothing connected, descriptors present). *)
+   tasks inside the manager have been resumed to their end and the network is healthy, within the bound of the big-step theorem.
+   (Before the repair of finding K10 the states 'IDLE, nothing connected, descriptors present' - k10_shape - were the exception.) *)
 From Coq Require Import List Bool Arith ZArith.
 Require Import GV.Lib.HashReach GV.Gen.LifecycleRules GV.Model.Lifecycle GV.Proofs.LifecycleP GV.Model.Heal GV.Model.LifecycleI GV.Proofs.LifecycleIP.
 Import ListNotations.
@@ -42,11 +42,11 @@ Lemma ireach9_closed : iclosed9b = true.
 Proof. vm_compute. reflexivity. Qed.
 Lemma iinit9_in : hmem ist ist_eqb ikey (ientered true) (hbuild ist ikey ireach9) = true.
 Proof. vm_compute. reflexivity. Qed.
-Lemma all_heal_or_k10 : forallb (fun s => k10_shape s || heals_within 420 s) ireach9 = true.
+Lemma all_heal : forallb (heals_within 420) ireach9 = true.
 Proof. vm_compute. reflexivity. Qed.
 Lemma heal_nonvacuous :
-  Nat.ltb 5000 (List.length (filter (heals_within 420) ireach9)) = true /\ Nat.ltb 100 (List.length (filter k10_shape ireach9)) = true.
-Proof. vm_compute. split; reflexivity. Qed.
+  Nat.ltb 1500 (List.length ireach9) = true /\ existsb (fun s => suspended s SU && suspended s SP) ireach9 = true /\ List.length (filter k10_shape ireach9) = O.
+Proof. vm_compute. repeat split; reflexivity. Qed.
 Global Opaque istep ireach9.
 
 (* fault labels up to the parameters the machine distinguishes *)
@@ -76,8 +76,7 @@ Proof.
   intros F H. apply (G ls (ientered true)); [|exact F|exact H]. eapply hmem_build; [exact ist_eqb_true|exact iinit9_in].
 Qed.
 
-Theorem interleaved_heal ls s : all_fault ls = true -> irun (ientered true) ls = Some s -> k10_shape s = true \/ heals_within 420 s = true.
+Theorem interleaved_heal ls s : all_fault ls = true -> irun (ientered true) ls = Some s -> heals_within 420 s = true.
 Proof.
-  intros F R. pose proof (ireach9_complete ls s F R) as I. pose proof all_heal_or_k10 as A. rewrite forallb_forall in A.
-  specialize (A s I). apply orb_prop in A. exact A.
+  intros F R. pose proof (ireach9_complete ls s F R) as I. pose proof all_heal as A. rewrite forallb_forall in A. exact (A s I).
 Qed.
